@@ -205,6 +205,29 @@ fn main_check(ctx: &Ctx) -> Outcome {
         out.push_part(json!({"system":"WinconBytes sequences containing a code the statement leaves out (5, 6, 22-29, 59)","sequences":cases.len()}));
     }
 
+    // (N) every kind of non-SGR sequence inside styled text: nothing may change
+    {
+        let cases = non_sgr_cases();
+        cases.par_iter().for_each(|c| {
+            let mut imp = WinconBytes::new();
+            let mut model = RunModel::default();
+            if let Err(m) = guard(|| wincon_step(&mut imp, &mut model, c)).and_then(|r| r.map(|_| ())) {
+                let mut v = viol.lock().unwrap();
+                if v.len() < 300 {
+                    v.push(Finding {
+                        system: "WinconBytes::extract_next/non-SGR-sequences".into(),
+                        clause: wincon_clause_of(&m),
+                        case: vec![show(c)],
+                        message: m,
+                        replay: json!({"kind":"seq-from-style","prefix": hex(&[0xffu8]), "chunk": hex(c), "chunk_sep": hex(c)}),
+                    });
+                }
+            }
+        });
+        evals.fetch_add(cases.len() as u64, Ordering::Relaxed);
+        out.push_part(json!({"system":"WinconBytes: every OSC number 0..=255, every CSI final byte, every ESC final byte, DCS/SOS/PM/APC inside styled text","sequences":cases.len()}));
+    }
+
     // (E) every chunk of <= 2 bytes over ALL 256 byte values, from the default and a styled state after every string of
     //     <= 2 class bytes (parser in every kind of state, partial characters included): a byte the extractor singles
     //     out meets every neighbour, without relying on the token alphabets above
